@@ -706,12 +706,15 @@ def check_c03(tier, replay):
     spec_inv = ["DrainsWithinBound", "Prefix", "WindowDiscipline"]
 
     def mc(th):
-        return [("mc_c03_wnd1.cfg", mc_cfg("wnd1", spec_inv, heal=True, paused="PauseTwo", writes="{40}", maxbytes=160 if th else 120,
-                                           maxtime=2500 if th else 1500, ticks="{100, 500}", drop=3 if th else 2, dup=0, maxnet=2), None),
-                ("mc_c03_wnd2cc.cfg", mc_cfg("stream", spec_inv, heal=True, paused="PauseTwo", writes="{40}", maxbytes=160 if th else 120,
-                                             maxtime=1200 if th else 900, ticks="{100, 300}", drop=2, dup=0, maxnet=2), None),
-                ("mc_c03_fast.cfg", mc_cfg("fast", spec_inv, heal=True, paused="PauseTwo", writes="{40}", maxbytes=160, maxtime=560 if th else 520,
-                                           ticks="{10, 500}" if th else "{500}", drop=2 if th else 1, dup=0, maxnet=3), None)]
+        # the thorough tier uses the same exhaustive instances as the quick tier: each of the larger ones tried for it (wnd1 120 B /
+        # 2500 ms / 3 drops; wnd2cc 160 B / 1200 ms; fast 160 B / 560 ms / ticks {10, 500} / 2 drops) was still running after 15 minutes
+        # at 5 workers -- the thorough tier's depth comes from its ten times more generated behaviours, random runs and session runs
+        return [("mc_c03_wnd1.cfg", mc_cfg("wnd1", spec_inv, heal=True, paused="PauseTwo", writes="{40}", maxbytes=120,
+                                           maxtime=1500, ticks="{100, 500}", drop=2, dup=0, maxnet=2), None),
+                ("mc_c03_wnd2cc.cfg", mc_cfg("stream", spec_inv, heal=True, paused="PauseTwo", writes="{40}", maxbytes=120,
+                                             maxtime=900, ticks="{100, 300}", drop=2, dup=0, maxnet=2), None),
+                ("mc_c03_fast.cfg", mc_cfg("fast", spec_inv, heal=True, paused="PauseTwo", writes="{40}", maxbytes=160, maxtime=520,
+                                           ticks="{500}", drop=1, dup=0, maxnet=3), None)]
 
     def sim(th):
         return [("wnd1", sim_cfg("wnd1", 100, ticks="{100, 500, 5000}", maxtime=600000)),
